@@ -193,6 +193,9 @@ def sec_tables(rep):
 PIDS = None
 
 
+MANAGER_WRITES = []  # (channel, kernel type, (order, ren, fact) before, after): compute_local must not reconfigure the shared manager
+
+
 def run_compute_local(sy, pto, ren, fact, nf, kernel_type, channel="non-singlet", manager=None):
     """Run the REAL compute_local on one abstract kernel; returns {order key: 14-vector of terms}."""
     from yadism.esf import esf as esfmod, conv
@@ -267,8 +270,12 @@ def run_compute_local(sy, pto, ren, fact, nf, kernel_type, channel="non-singlet"
     e.orders = list(range(pto + 1))
     e.info = esfmod.ESFInfo(H.obs_name("F2", "total"), cfg)
     shim = NumpyShim()
+    state_before = (m.order, m.activate_ren, m.activate_fact, sorted(map(str, m.operators)))
     with rebind(*binds(sy, beta), (cf, "Combiner", Comb), (conv, "convolve_vector", convolve_vector), (esfmod, "np", shim)):
         e.compute_local()
+    state_after = (m.order, m.activate_ren, m.activate_fact, sorted(map(str, m.operators)))
+    if state_before != state_after:
+        MANAGER_WRITES.append((channel, kernel_type, state_before[:3], state_after[:3]))
     out = {}
     for k, (val, err) in e.res.orders.items():
         out[k] = ([val[i, 0] for i in range(len(pids))], [err[i, 0] for i in range(len(pids))])
@@ -501,7 +508,16 @@ def switch_worker(sub, item):
     if kt == "intrinsic":
         # intrinsic: no factorisation logs at all
         sub.cases += 1
+        del MANAGER_WRITES[:]
         got, _, _ = run_compute_local(sy, pto, True, True, nf, "quark", channel="intrinsic")
+        # frame + history: the manager is shared by every kernel of the run; an intrinsic kernel must
+        # leave its switches alone, and a kernel computed AFTER it on the same manager gets its lnF terms
+        m = mk_manager(sy, pto, True, True, nf)
+        run_compute_local(sy, pto, True, True, nf, "quark", channel="intrinsic", manager=m)
+        after, _, _ = run_compute_local(sy, pto, True, True, nf, "quark", manager=m)
+        fresh, _, _ = run_compute_local(sy, pto, True, True, nf, "quark")
+        same = sorted(after) == sorted(fresh) and all(repr(after[k]) == repr(fresh[k]) for k in fresh)
+        sub.add(ob_eval(f"C05/intrinsic/pto={pto}/nf={nf}/frame: compute_local leaves the shared manager's switches and order alone; a later non-intrinsic kernel is unaffected", not MANAGER_WRITES and same, kind="frame", detail=f"writes: {MANAGER_WRITES[:2]}; later kernel identical to a fresh run: {same}", inputs={} if (not MANAGER_WRITES and same) else {"sequence": "intrinsic kernel, then non-singlet kernel on one manager", "manager (order, ren, fact) before/after": str(MANAGER_WRITES[:2])}))
         leak = [key for key in got if key[3] > 0 and any(not (isinstance(v, (int, float)) and v == 0) for v in got[key][0])]
         sub.add(ob_eval(f"C05/intrinsic/pto={pto}/nf={nf}/no key with lnF>0", not leak, detail=str(leak), inputs={} if not leak else {"keys": leak}))
         return
@@ -587,6 +603,17 @@ def sec_compute_raw(rep):
             except Exception as e:  # noqa
                 ok, detail = False, f"{type(e).__name__}: {e}"
             rep.add(ob_eval(f"{rep.pid}/compute_raw/invariant(operators[(label,nf)] = convolution of that label at that nf, for every request history)/pto={pto}/nf-sequence={seq}", ok, kind="invariant", detail=detail, inputs={} if ok else {"nf sequence": str(seq), "observed": detail}))
+
+
+def sec_kernels_are_distributions(rep):
+    """'fixed by the DGLAP splitting kernels': the kernels the scale-variation terms are built from
+    are one well-defined distribution each -- local part = delta coefficient minus the primitive of
+    the plus-distribution part (the C03 contract of every split.raw_labels entry, re-discharged here
+    because a slip in a local term changes every ln(muF) coefficient at x > 0 while all Mellin
+    moments at the origin stay put)."""
+    from . import c03
+
+    c03.sec_labels(rep)
 
 
 def sec_runner_wiring(rep):
@@ -687,7 +714,7 @@ def run(rep, tier, seed, only=None):
         "one-node grid with formal operators: the code uses the operators only linearly (no operator x operator product is computed at run time), so the identities lift to every grid size",
     )
     rep.stub("eko.beta -> symbolic beta0/beta1", "conv.convolve_vector -> symbolic raw coefficients c_o", "Combiner -> one abstract kernel", "ScaleVariations.operators pre-filled with formal 1x1 operators (compute_raw's cache branch)")
-    for nm, f in (("tables", sec_tables), ("rge", sec_rge), ("rgeshared", sec_rge_shared), ("computeraw", sec_compute_raw), ("switches", sec_switches), ("wiring", sec_runner_wiring), ("apply_pdf", sec_apply_pdf), ("labels", sec_label_moments)):
+    for nm, f in (("tables", sec_tables), ("rge", sec_rge), ("rgeshared", sec_rge_shared), ("computeraw", sec_compute_raw), ("distributions", sec_kernels_are_distributions), ("switches", sec_switches), ("wiring", sec_runner_wiring), ("apply_pdf", sec_apply_pdf), ("labels", sec_label_moments)):
         if only and only not in nm:
             continue
         rep.add(guarded(f"C05/{nm}", lambda f=f: (f(rep), [])[1]))
